@@ -237,7 +237,27 @@ func runLP(t *simrt.Tape, rc *RunCtx) *Violation {
 			A[i][t.Choose(simrt.KValue, n)] = 1
 		}
 	}
-	for j := 0; j < n; j++ {
+	// (an all-zero column is refused with ErrZeroColumn - unless its cost is
+	// negative, when Simplex classifies the program without solving it; one
+	// program in six keeps its zero columns, and gets one if it has none)
+	keepZeroCols := n > m && t.Choose(simrt.KWorkload, 6) == 5
+	if keepZeroCols {
+		j := t.Choose(simrt.KValue, n)
+		for i := range A {
+			A[i][j] = 0
+		}
+		// every row must still have a nonzero
+		for i := range A {
+			zero := true
+			for _, v := range A[i] {
+				zero = zero && v == 0
+			}
+			if zero {
+				A[i][(j+1)%n] = 1
+			}
+		}
+	}
+	for j := 0; j < n && !keepZeroCols; j++ {
 		zero := true
 		for i := range A {
 			if A[i][j] != 0 {
@@ -302,7 +322,8 @@ func runLP(t *simrt.Tape, rc *RunCtx) *Violation {
 	if pan != nil {
 		return &Violation{prop, "lp/simplex/panic", fmt.Sprintf("Simplex panicked: %v\n%s", pan, where)}
 	}
-	numeric := errors.Is(err, lp.ErrBland) || errors.Is(err, lp.ErrLinSolve)
+	// (ErrZeroColumn is a documented refusal to solve, not a classification)
+	numeric := errors.Is(err, lp.ErrBland) || errors.Is(err, lp.ErrLinSolve) || errors.Is(err, lp.ErrZeroColumn)
 	switch {
 	case !ref.fullRank:
 		rc.probe("lp_rank_deficient", 1)
@@ -316,7 +337,22 @@ func runLP(t *simrt.Tape, rc *RunCtx) *Violation {
 			return nil
 		}
 		if !errors.Is(err, lp.ErrInfeasible) {
-			return &Violation{prop, "lp/simplex/infeasible-misclassified", fmt.Sprintf("no basis of the %d nonsingular ones is feasible, so the program is infeasible; Simplex returned F=%v X=%v err=%v\n%s", ref.nBases, optF, optX, err, where)}
+			sig := "lp/simplex/infeasible-misclassified"
+			if errors.Is(err, lp.ErrUnbounded) {
+				// the input check answers for a zero column with a negative
+				// cost before anything is solved (known finding)
+				for j := 0; j < n; j++ {
+					zero := c[j] < 0
+					for i := range A {
+						zero = zero && A[i][j] == 0
+					}
+					if zero {
+						sig += "/zero-column-with-negative-cost"
+						break
+					}
+				}
+			}
+			return &Violation{prop, sig, fmt.Sprintf("no basis of the %d nonsingular ones is feasible, so the program is infeasible; Simplex returned F=%v X=%v err=%v\n%s", ref.nBases, optF, optX, err, where)}
 		}
 	case ref.unbounded:
 		rc.probe("lp_unbounded", 1)
